@@ -92,40 +92,52 @@ def differCs (pb : Problem) (y x y' x' : Int) : Py (List Expr) := do
   let e ← ensure1 o2
   .ok [e]
 
+/-- `if num[y][x] > 0: solver.ensure(answer[y][x] == num[y][x])`. -/
+def givenCs (pb : Problem) (y x : Nat) : Py (List Expr) := do
+  let n ← tableGet pb.num y x
+  if n > 0 then do
+    let a ← ansAt pb y x
+    let e ← cmpPy .eq a (.litI n)
+    let e ← ensure1 e
+    .ok [e]
+  else .ok []
+
+/-- `if y < height - 1 and x < width - 1: solver.ensure((a[y][x] == 0) | (a[y][x+1] == 0) | (a[y+1][x] == 0) | (a[y+1][x+1] == 0))`. -/
+def squareCs (pb : Problem) (y x : Nat) : Py (List Expr) :=
+  if (y : Int) < (pb.height : Int) - 1 ∧ (x : Int) < (pb.width : Int) - 1 then do
+    let z1 ← isZero pb y x
+    let z2 ← isZero pb y ((x : Int) + 1)
+    let o1 ← orE z1 z2
+    let z3 ← isZero pb ((y : Int) + 1) x
+    let o2 ← orE o1 z3
+    let z4 ← isZero pb ((y : Int) + 1) ((x : Int) + 1)
+    let o3 ← orE o2 z4
+    let e ← ensure1 o3
+    .ok [e]
+  else .ok []
+
+/-- `if y < height - 1 and block_id[y][x] != block_id[y + 1][x]: …`. -/
+def downCs (pb : Problem) (bid : List (List Int)) (y x : Nat) : Py (List Expr) :=
+  if (y : Int) < (pb.height : Int) - 1 then do
+    let r ← tableGet bid y x
+    let r' ← tableGet bid ((y : Int) + 1) x
+    if r != r' then differCs pb y x ((y : Int) + 1) x else .ok []
+  else .ok []
+
+/-- `if x < width - 1 and block_id[y][x] != block_id[y][x + 1]: …`. -/
+def rightCs (pb : Problem) (bid : List (List Int)) (y x : Nat) : Py (List Expr) :=
+  if (x : Int) < (pb.width : Int) - 1 then do
+    let r ← tableGet bid y x
+    let r' ← tableGet bid y ((x : Int) + 1)
+    if r != r' then differCs pb y x y ((x : Int) + 1) else .ok []
+  else .ok []
+
 /-- Body of the final double loop for the cell `(y, x)`. -/
 def cellCs (pb : Problem) (bid : List (List Int)) (p : Nat × Nat) : Py (List Expr) := do
-  let y : Int := p.1
-  let x : Int := p.2
-  let h : Int := pb.height
-  let w : Int := pb.width
-  let n ← tableGet pb.num y x
-  let c1 ← if n > 0 then do
-      let a ← ansAt pb y x
-      let e ← cmpPy .eq a (.litI n)
-      let e ← ensure1 e
-      .ok [e]
-    else .ok []
-  let c2 ← if y < h - 1 ∧ x < w - 1 then do
-      let z1 ← isZero pb y x
-      let z2 ← isZero pb y (x + 1)
-      let o1 ← orE z1 z2
-      let z3 ← isZero pb (y + 1) x
-      let o2 ← orE o1 z3
-      let z4 ← isZero pb (y + 1) (x + 1)
-      let o3 ← orE o2 z4
-      let e ← ensure1 o3
-      .ok [e]
-    else .ok []
-  let c3 ← if y < h - 1 then do
-      let r ← tableGet bid y x
-      let r' ← tableGet bid (y + 1) x
-      if r != r' then differCs pb y x (y + 1) x else .ok []
-    else .ok []
-  let c4 ← if x < w - 1 then do
-      let r ← tableGet bid y x
-      let r' ← tableGet bid y (x + 1)
-      if r != r' then differCs pb y x y (x + 1) else .ok []
-    else .ok []
+  let c1 ← givenCs pb p.1 p.2
+  let c2 ← squareCs pb p.1 p.2
+  let c3 ← downCs pb bid p.1 p.2
+  let c4 ← rightCs pb bid p.1 p.2
   .ok (c1 ++ c2 ++ c3 ++ c4)
 
 /-- The program posted by `solve_nanro`; `prim` = `config.use_graph_primitive`. -/
